@@ -283,6 +283,10 @@ def gen_plan(rng: random.Random, tier: str) -> dict:
         x = rng.random()
         if x < 0.04:
             steps.append({"at": t, "op": "select", "local": rng.choice([None, 5, 5, 7, 12])})
+        elif x > 0.965:
+            # the proxy sends a packet of its own on the circuit: every later forwarded packet in that direction is
+            # renumbered on its way out - after it was logged
+            steps.append({"at": t, "op": "inject", "dir": rng.choice(["in", "out"])})
         elif x < 0.07 and any(s_["op"] == "filter" for s_ in steps):
             # the operator presses return in the filter box again (same text): the view is re-evaluated
             last = [s_ for s_ in steps if s_["op"] == "filter"][-1]
@@ -711,6 +715,23 @@ def run_plan(plan: dict) -> RunResult:
                 return int(x)
             return x
 
+        def op_inject(st):
+            from hippolyzer.lib.base.datatypes import UUID
+            from hippolyzer.lib.base.message.message import Block, Message
+            from hippolyzer.lib.base.network.transport import Direction
+            region_ = spec.session.regions[0]
+            if region_.circuit is None or not region_.circuit.is_alive or viewer.proxy_udp not in world.net.transports:
+                return
+            res.fault("proxy_injection")
+            if st["dir"] == "in":
+                msg = Message("ChatFromSimulator", Block("ChatData", FromName="inj", SourceID=UUID(int=1), OwnerID=UUID(int=2),
+                                                         SourceType=1, ChatType=1, Audible=1, Position=(0.0, 0.0, 0.0),
+                                                         Message="injected"), direction=Direction.IN)
+            else:
+                msg = Message("ChatFromViewer", Block("AgentData", AgentID=spec.session.agent_id, SessionID=spec.session.id),
+                              Block("ChatData", Message="injected", Type=1, Channel=0), direction=Direction.OUT)
+            region_.circuit.send(msg)
+
         def op_http(st):
             url = caps[st["cap"]] + "/x" if st["cap"] else f"https://other.example.invalid/p{st['tag']}"
             http.request({"method": "POST", "url": url, "content": llsd.format_xml({"q": 1}),
@@ -724,7 +745,7 @@ def run_plan(plan: dict) -> RunResult:
             driver.op_disconnect(st)
             state["session_gone"] = True
 
-        ops = {"select": op_select, "filter": op_filter, "pause": op_pause, "clear": op_clear, "export": op_export, "http": op_http,
+        ops = {"inject": op_inject, "select": op_select, "filter": op_filter, "pause": op_pause, "clear": op_clear, "export": op_export, "http": op_http,
                "eq": op_eq, "disconnect": op_disconnect, "ucc": driver.op_ucc, "vsend": driver.op_vsend,
                "ssend": driver.op_ssend}
         for i, st in enumerate(plan["steps"]):
